@@ -155,7 +155,7 @@ pub fn run(seed: u64, thorough: bool) {
     // the table domain's own strategies (mirrored in Lean), incl. powerset with conditioning
     for _ in 0..n {
         let len = rng.range(0, 5);
-        let strategy = rng.below(5);
+        let strategy = rng.below(6);
         let cs: Vec<TCons> = if strategy == 3 && rng.chance(2, 3) {
             // families of not-in sets over one first key (and always-true constraints)
             let first = rng.below(2);
